@@ -1,22 +1,28 @@
 /-!
-# The expression ladder of the parser (pkg/sql/parser/expressions.go), core sub-language
+# The expression ladder of the parser (pkg/sql/parser/expressions.go, window.go: parseFunctionCall)
 
-`parseExpression` (OR, left-assoc) → `parseAndExpression` (AND) → `parseComparisonExpression` (one optional
-comparison, both operands at the `||` level) → `parseStringConcatExpression` (`||`) → `parseAdditiveExpression` (+ −)
-→ `parseMultiplicativeExpression` (* / %) → `parseJSONExpression` → `parsePrimaryExpression` (identifier, literals,
-parenthesised expression, `NOT` with a comparison-level operand).
+`parseExpression` (OR, left-assoc) → `parseAndExpression` (AND) → `parseComparisonExpression` (left operand at the
+`||` level, then at most one of: `[NOT] BETWEEN lo AND hi`, `[NOT] LIKE/ILIKE/REGEXP/RLIKE pattern`, `[NOT] IN (list)`,
+`IS [NOT] NULL`, a comparison operator with its right operand) → `parseStringConcatExpression` (`||`) →
+`parseAdditiveExpression` (+ −) → `parseMultiplicativeExpression` (* / %) → `parseJSONExpression` →
+`parsePrimaryExpression` (identifier, plain function call `f(a, b, …)`, literals, parenthesised expression, `NOT` with
+a comparison-level operand).
 
-Tokens are classified (`TK`) by a table of token-type numbers regenerated from the source.  A token that would make the
-real parser enter a production this model does not cover (BETWEEN, LIKE, IN, IS, `::`, JSON operators, function
-calls, qualified names, tuples, CASE, CAST, EXISTS, sub-queries, …) yields `unsupported`, never a guess; the
-correspondence skips those inputs.  The depth counter of `parseExpression` / `NOT` is modelled (limit 100).
+Tokens carry a class (`TK`, from the token type by a table of numbers regenerated from the source) and their literal;
+the tests the real parser makes on the *literal* of the current token (ILIKE / REGEXP / RLIKE, the look-ahead after
+NOT, SEPARATOR, MATCH … AGAINST) are made on the literal here too.  A token that would make the real parser enter a
+production this model does not cover (`::`, JSON operators, qualified names, tuples, sub-queries, CASE, CAST, EXISTS,
+DISTINCT / ORDER BY / SEPARATOR inside a call, WITHIN GROUP / FILTER / OVER after it, ANY / ALL, …) yields `unsupported`,
+never a guess; the correspondence skips those inputs.  The depth counter of `parseExpression` / `NOT` is modelled
+(limit 100), and so is the re-wrapping of operand errors by BETWEEN / LIKE / IN (code E2004).
 -/
 namespace GoSQLXModel.ExprParse
 
 inductive TK where
   | or | and | not | cmp | cat | plus | minus | star | div | mod
   | lparen | rparen | ident | num | str | bool | null
-  | stop          -- ends an expression: EOF, `;`, `,`
+  | is | between | like | ilike | in_ | comma
+  | stop          -- ends an expression: EOF, `;`
   | cont          -- continues a primary in an unmodelled way: `::`, JSON operators, `[`, `.`
   | other         -- any other token: may start or continue a production this model does not cover
   deriving DecidableEq, Repr
@@ -26,6 +32,7 @@ structure PTok where
   lit : String
   deriving DecidableEq, Repr
 
+mutual
 inductive Ex where
   | ident (n : String)
   | num (v : String)
@@ -34,25 +41,78 @@ inductive Ex where
   | null
   | bin (op : String) (l r : Ex)
   | not (e : Ex)
-  deriving DecidableEq, Repr
+  | isnull (neg : Bool) (e : Ex)
+  | between (neg : Bool) (e lo hi : Ex)
+  | like (neg : Bool) (op : String) (l r : Ex)
+  | inlist (neg : Bool) (e : Ex) (items : ExL)
+  | call (name : String) (args : ExL)
+inductive ExL where
+  | nil
+  | cons (e : Ex) (rest : ExL)
+end
 
 inductive Res where
   | ok (e : Ex) (rest : List PTok)
   | err (code : String)
   | unsupported
   | oof
-  deriving DecidableEq, Repr
+
+inductive ResL where
+  | ok (es : ExL) (rest : List PTok)
+  | err (code : String)
+  | unsupported
+  | oof
 
 def maxDepth : Nat := 100
 
-/-- tokens after which the real parser may keep going in a way this model does not cover -/
-def continuesUnmodelled (k : TK) : Bool := k == .other || k == .not || k == .cont
+/-! ## tests on literals (ASCII case folding; the driver refuses inputs whose literals contain one of the three
+    non-ASCII characters that Go's `strings.ToUpper` / `strings.EqualFold` map to ASCII letters) -/
+def upper (s : String) : String := s.map Char.toUpper
+def isWord (s w : String) : Bool := upper s == w
 
-/-- parseJSONExpression after a primary: `::`, a JSON operator, `[` are not modelled -/
+/-- the look-ahead after NOT in parseComparisonExpression -/
+def notLookahead (t : PTok) : Bool :=
+  isWord t.lit "BETWEEN" || isWord t.lit "LIKE" || isWord t.lit "ILIKE" || isWord t.lit "IN"
+
+/-- `NOT` is consumed as a predicate prefix -/
+def notPrefix (ts : List PTok) : Bool :=
+  match ts with
+  | ⟨.not, _⟩ :: t2 :: _ => notLookahead t2
+  | _ => false
+
+def isLikeOp (t : PTok) : Bool := t.k == .like || isWord t.lit "ILIKE"
+def isRegexpOp (t : PTok) : Bool := isWord t.lit "REGEXP" || isWord t.lit "RLIKE"
+
+/-- tokens after which the real parser may keep going in a way this model does not cover -/
+def continuesUnmodelled (k : TK) : Bool := k == .other || k == .cont
+
+/-- parseJSONExpression after a primary: `::`, a JSON operator, `[`, `.` are not modelled -/
 def afterPrimary (e : Ex) (rest : List PTok) : Res :=
   match rest with
   | ⟨.cont, _⟩ :: _ => .unsupported
   | _ => .ok e rest
+
+/-- after the closing parenthesis of a call: WITHIN GROUP / FILTER / OVER (keywords) and MATCH … AGAINST are not modelled -/
+def afterCall (n : String) (args : ExL) (rest : List PTok) : Res :=
+  match rest with
+  | t :: _ =>
+    if t.k == .other || (isWord n "MATCH" && isWord t.lit "AGAINST") then .unsupported
+    else afterPrimary (.call n args) rest
+  | [] => .ok (.call n args) rest
+
+/-- IS [NOT] NULL after the left operand -/
+def pIs (l : Ex) (ts : List PTok) : Res :=
+  match ts with
+  | ⟨.not, _⟩ :: ⟨.null, _⟩ :: rest => .ok (.isnull true l) rest
+  | ⟨.not, _⟩ :: _ => .err "E2002"
+  | ⟨.null, _⟩ :: rest => .ok (.isnull false l) rest
+  | _ => .err "E2002"
+
+def Res.toL : Res → ResL
+  | .ok _ _ => .oof
+  | .err c => .err c
+  | .unsupported => .unsupported
+  | .oof => .oof
 
 mutual
 /-- parseExpression: the depth guard, then the OR level one deeper -/
@@ -89,17 +149,81 @@ def lAnd : Nat → Nat → Ex → List PTok → Res
        | .ok r rest => lAnd f d (.bin op l r) rest
        | r => r)
     | _ => .ok l ts
-/-- parseComparisonExpression: at most one comparison; NOT / BETWEEN / LIKE / IN / IS here are not modelled -/
+/-- parseComparisonExpression: the left operand, then what follows it -/
 def pCmp : Nat → Nat → List PTok → Res
   | 0, _, _ => .oof
   | f+1, d, ts =>
     match pCat f d ts with
-    | .ok l (⟨.cmp, op⟩ :: ts') =>
-      (match pCat f d ts' with
-       | .ok r rest => .ok (.bin op l r) rest
-       | r => r)
-    | .ok l (⟨k, lit⟩ :: rest) => if continuesUnmodelled k then .unsupported else .ok l (⟨k, lit⟩ :: rest)
+    | .ok l rest => pTail f d l rest
     | r => r
+/-- the part of parseComparisonExpression after the left operand: NOT is consumed when the look-ahead says so -/
+def pTail : Nat → Nat → Ex → List PTok → Res
+  | 0, _, _, _ => .oof
+  | f+1, d, l, ts => pPred f d (notPrefix ts) l (if notPrefix ts then ts.tail else ts)
+/-- … then the tests of parseComparisonExpression on the current token, in their order -/
+def pPred : Nat → Nat → Bool → Ex → List PTok → Res
+  | 0, _, _, _, _ => .oof
+  | _+1, _, _, l, [] => .ok l []
+  | f+1, d, neg, l, t :: r1 =>
+    if t.k == .between then pBetween f d neg l r1
+    else if isLikeOp t then pLike f d neg t.lit l r1
+    else if isRegexpOp t then pLike f d neg (upper t.lit) l r1
+    else if t.k == .in_ then pIn f d neg l r1
+    else if neg then .err "E2002"
+    else if t.k == .is then pIs l r1
+    else if t.k == .cmp then
+      (match pCat f d r1 with
+       | .ok r rest => .ok (.bin t.lit l r) rest
+       | r => r)
+    else if continuesUnmodelled t.k then .unsupported
+    else .ok l (t :: r1)
+/-- after BETWEEN: lower bound, AND, upper bound, each at the `||` level; operand errors are re-wrapped -/
+def pBetween : Nat → Nat → Bool → Ex → List PTok → Res
+  | 0, _, _, _, _ => .oof
+  | f+1, d, neg, l, ts =>
+    match pCat f d ts with
+    | .ok lo (⟨.and, _⟩ :: r2) =>
+      (match pCat f d r2 with
+       | .ok hi rest => .ok (.between neg l lo hi) rest
+       | .err _ => .err "E2004"
+       | r => r)
+    | .ok _ _ => .err "E2002"
+    | .err _ => .err "E2004"
+    | r => r
+/-- after LIKE / ILIKE / REGEXP / RLIKE: the pattern is a primary expression -/
+def pLike : Nat → Nat → Bool → String → Ex → List PTok → Res
+  | 0, _, _, _, _, _ => .oof
+  | f+1, d, neg, op, l, ts =>
+    match pPrim f d ts with
+    | .ok pat rest => .ok (.like neg op l pat) rest
+    | .err _ => .err "E2004"
+    | r => r
+/-- after IN: a parenthesised, comma-separated list of expressions (a sub-query is not modelled: its first token is
+    a keyword, on which the list's first expression answers `unsupported`) -/
+def pIn : Nat → Nat → Bool → Ex → List PTok → Res
+  | 0, _, _, _, _ => .oof
+  | f+1, d, neg, l, ts =>
+    match ts with
+    | ⟨.lparen, _⟩ :: ⟨.other, _⟩ :: _ => .unsupported     -- sub-query
+    | ⟨.lparen, _⟩ :: r1 =>
+      (match pInList f d r1 with
+       | .ok items rest => .ok (.inlist neg l items) rest
+       | .err c => .err c
+       | .unsupported => .unsupported
+       | .oof => .oof)
+    | _ => .err "E2002"
+def pInList : Nat → Nat → List PTok → ResL
+  | 0, _, _ => .oof
+  | f+1, d, ts =>
+    match pExpr f d ts with
+    | .ok v (⟨.comma, _⟩ :: r) =>
+      (match pInList f d r with
+       | .ok vs rest => .ok (.cons v vs) rest
+       | r => r)
+    | .ok v (⟨.rparen, _⟩ :: r) => .ok (.cons v .nil) r
+    | .ok _ _ => .err "E2002"
+    | .err _ => .err "E2004"
+    | r => r.toL
 def pCat : Nat → Nat → List PTok → Res
   | 0, _, _ => .oof
   | f+1, d, ts =>
@@ -157,6 +281,20 @@ def mulStep : Nat → Nat → Ex → String → List PTok → Res
       match pPrim f d ts' with
       | .ok r rest => lMul f d (.bin op l r) rest
       | r => r
+/-- the arguments of a call, after `(` when the next token is not `)` -/
+def pArgs : Nat → Nat → List PTok → ResL
+  | 0, _, _ => .oof
+  | _+1, _, ⟨.other, _⟩ :: _ => .unsupported      -- DISTINCT, ORDER BY, or any keyword-led production
+  | f+1, d, ts =>
+    match pExpr f d ts with
+    | .ok v (⟨.comma, _⟩ :: r) =>
+      (match pArgs f d r with
+       | .ok vs rest => .ok (.cons v vs) rest
+       | r => r)
+    | .ok v (⟨.rparen, _⟩ :: r) => .ok (.cons v .nil) r
+    | .ok _ (t :: _) => if t.k == .other || isWord t.lit "SEPARATOR" then .unsupported else .err "E2002"
+    | .ok _ [] => .err "E2002"
+    | r => r.toL
 /-- parseJSONExpression ∘ parsePrimaryExpression for the covered primaries -/
 def pPrim : Nat → Nat → List PTok → Res
   | 0, _, _ => .oof
@@ -164,7 +302,13 @@ def pPrim : Nat → Nat → List PTok → Res
     match ts with
     | ⟨.ident, n⟩ :: rest =>
       (match rest with
-       | ⟨.lparen, _⟩ :: _ => .unsupported     -- function call
+       | ⟨.lparen, _⟩ :: ⟨.rparen, _⟩ :: r2 => afterCall n .nil r2
+       | ⟨.lparen, _⟩ :: r1 =>
+         (match pArgs f d r1 with
+          | .ok args r2 => afterCall n args r2
+          | .err c => .err c
+          | .unsupported => .unsupported
+          | .oof => .oof)
        | _ => afterPrimary (.ident n) rest)
     | ⟨.star, _⟩ :: rest => afterPrimary (.ident "*") rest
     | ⟨.str, v⟩ :: rest => afterPrimary (.str v) rest
@@ -177,7 +321,7 @@ def pPrim : Nat → Nat → List PTok → Res
        | _ =>
          match pExpr f d rest with
          | .ok e (⟨.rparen, _⟩ :: rest') => afterPrimary e rest'
-         | .ok _ (⟨.stop, ","⟩ :: _) => .unsupported   -- tuple
+         | .ok _ (⟨.comma, _⟩ :: _) => .unsupported   -- tuple
          | .ok _ _ => .err "E2002"
          | r => r)
     | ⟨.not, _⟩ :: rest =>
@@ -192,5 +336,37 @@ def pPrim : Nat → Nat → List PTok → Res
     | ⟨.other, _⟩ :: _ => .unsupported
     | _ => .err "E2001"
 end
+
+/-! ## canonical text of trees and results (what the driver answers; also makes results comparable by `decide`) -/
+def lower (s : String) : String := s.map Char.toLower
+
+mutual
+def Ex.canon : Ex → String
+  | .ident n => "id(" ++ n ++ ")"
+  | .num v => "num(" ++ v ++ ")"
+  | .str v => "str(" ++ v ++ ")"
+  | .bool v => "bool(" ++ upper v ++ ")"
+  | .null => "null"
+  | .bin op l r => "(" ++ l.canon ++ " " ++ upper op ++ " " ++ r.canon ++ ")"
+  | .not e => "not(" ++ e.canon ++ ")"
+  | .isnull neg e => (if neg then "!" else "") ++ "isnull(" ++ e.canon ++ ")"
+  | .between neg e lo hi => (if neg then "!" else "") ++ "between(" ++ e.canon ++ "," ++ lo.canon ++ "," ++ hi.canon ++ ")"
+  | .like neg op l r =>
+    if upper op == "LIKE" || upper op == "ILIKE" then
+      (if neg then "!" else "") ++ lower op ++ "(" ++ l.canon ++ "," ++ r.canon ++ ")"
+    else (if neg then "not" else "") ++ "(" ++ l.canon ++ " " ++ upper op ++ " " ++ r.canon ++ ")"
+  | .inlist neg e items => (if neg then "!" else "") ++ "in(" ++ e.canon ++ items.canon ++ ")"
+  | .call n args => "fn " ++ n ++ "(" ++ (args.canon.drop 1).toString ++ ")"
+/-- every item preceded by a comma -/
+def ExL.canon : ExL → String
+  | .nil => ""
+  | .cons e rest => "," ++ e.canon ++ rest.canon
+end
+
+def Res.canon : Res → String
+  | .ok e rest => "OK " ++ e.canon ++ " " ++ toString rest.length
+  | .err c => "ERR " ++ c
+  | .unsupported => "UNSUPPORTED"
+  | .oof => "OOF"
 
 end GoSQLXModel.ExprParse
